@@ -194,38 +194,123 @@ where
     C: Fn(&Case) -> CheckResult + Sync,
 {
     use rayon::prelude::*;
-    (0..n).into_par_iter().for_each(|i| {
-        if i % 64 == 0 && stats.past_cap() {
+    let call = stats.drive_calls.fetch_add(1, std::sync::atomic::Ordering::Relaxed);
+    // representatives for the interference stage: about 96 per drive call, by index
+    let stride = (n / 96).max(1);
+    // Consecutive cases run in chunks, each chunk on ONE fresh thread with owned hash keys: the
+    // library's thread-local / process-wide state therefore survives from a case to its
+    // neighbours (similar inputs: same names, same offsets), and when a case fails we can tell
+    // deterministically whether it fails by itself or because of what ran before it.
+    let chunk = (n / 256).clamp(1, 32);
+    let nchunks = (n + chunk - 1) / chunk;
+    (0..nchunks).into_par_iter().for_each(|c| {
+        if stats.past_cap() || stats.elapsed() > stats.wall_cap_s {
             return;
         }
-        if stats.elapsed() > stats.wall_cap_s {
-            return;
-        }
-        let case = match make(i) {
-            Some(c) => c,
-            None => return,
-        };
-        let r = check(&case);
-        stats.case_done(transitions_per_case);
-        for o in &r.outcomes {
-            stats.outcome(o);
-        }
-        if let Some(d) = r.nontrivial {
-            stats.nontrivial(d);
-        }
-        if let Some(s) = r.sample {
-            if stats.want_sample() {
-                stats.sample(s);
+        let base = crate::report::fnv(&format!("chunk\u{1}{}\u{1}{}\u{1}{}", stats.prop, call, c));
+        crate::engine::seeded(base, || {
+            let mut prefix: Vec<Case> = Vec::new();
+            for i in c * chunk..((c + 1) * chunk).min(n) {
+                let case = match make(i) {
+                    Some(c) => c,
+                    None => continue,
+                };
+                if i % stride == 0 {
+                    stats.rep(call, i, &case);
+                }
+                let mut r = check(&case);
+                stats.case_done(transitions_per_case);
+                for o in &r.outcomes {
+                    stats.outcome(o);
+                }
+                if let Some(d) = r.nontrivial {
+                    stats.nontrivial(d);
+                }
+                if let Some(s) = r.sample.take() {
+                    if stats.want_sample() {
+                        stats.sample(s);
+                    }
+                }
+                if r.failures.iter().any(|f| f.1.is_none()) {
+                    // by itself (fresh thread, keys a function of the case alone)?
+                    let alone = crate::engine::seeded(case_seed(&case), || check(&case));
+                    if alone.failures.iter().any(|f| f.1.is_none()) {
+                        r = alone;
+                    } else {
+                        // only after its neighbours / only under this thread's hash keys
+                        let mut ic = case.clone();
+                        if !ic.expect.is_object() {
+                            ic.expect = serde_json::json!({"__inner": ic.expect});
+                        }
+                        ic.expect["__after"] = serde_json::json!(prefix);
+                        ic.expect["__base"] = serde_json::json!(base);
+                        ic.kind = format!("interference/{}", ic.kind);
+                        let first = r.failures.iter().find(|f| f.1.is_none()).map(|f| f.0.clone()).unwrap_or_default();
+                        stats.violation(Violation {
+                            case: ic,
+                            message: format!(
+                                "the verdict for this case depends on what ran before it on the same thread ({} earlier cases) or on the thread's hash keys - alone it passes: {}",
+                                prefix.len(),
+                                first
+                            ),
+                            finding_key: None,
+                        });
+                        r.failures.retain(|f| f.1.is_some());
+                    }
+                }
+                for (message, finding_key) in r.failures {
+                    stats.violation(Violation {
+                        case: case.clone(),
+                        message,
+                        finding_key,
+                    });
+                }
+                if chunk > 1 {
+                    prefix.push(case);
+                }
             }
-        }
-        for (message, finding_key) in r.failures {
-            stats.violation(Violation {
-                case: case.clone(),
-                message,
-                finding_key,
-            });
-        }
+        });
     });
+}
+
+/// hash-key base of a case: a function of its property, kind, label and files
+pub fn case_seed(case: &Case) -> u64 {
+    crate::report::fnv(&format!("{}\u{1}{}\u{1}{}\u{1}{:?}", case.prop, case.kind.trim_start_matches("interference/"), case.label, case.files))
+}
+
+/// Replay one case the way `drive` ran it (fresh thread, owned hash keys).
+pub fn replay_seeded(case: &Case) -> Result<(), String> {
+    match replay_fn(case.prop.as_str()) {
+        Some(f) => crate::engine::seeded(case_seed(case), || f(case)),
+        None => Err(format!("no replay function for {}", case.prop)),
+    }
+}
+
+/// The replay function of a property (also used by the `seq` child mode).
+pub fn replay_fn(prop: &str) -> Option<fn(&Case) -> Result<(), String>> {
+    Some(match prop {
+        "C01" => c01::replay,
+        "C02" => c02::replay,
+        "C03" => c03::replay,
+        "C04" => c04::replay,
+        "C05" => c05::replay,
+        "C06" => c06::replay,
+        "C07" => c07::replay,
+        "C08" => c08::replay,
+        "C09" => c09::replay,
+        "C10" => c10::replay,
+        "C11" => c11::replay,
+        "C12" => c12::replay,
+        "C13" => c13::replay,
+        "C14" => c14::replay,
+        "C15" => c15::replay,
+        "C16" => c16::replay,
+        "C17" => c17::replay,
+        "C18" => c18::replay,
+        "C19" => c19::replay,
+        "C20" => c20::replay,
+        _ => return None,
+    })
 }
 
 #[derive(Default)]
